@@ -50,3 +50,7 @@ Definition is_inverse_q (V W : list (list Q)) : bool :=
 Definition fstat_q (e : list Q) (b : Q) (W : list (list Q)) : Q :=
   let d := map (fun x => x - b) e in
   qdot d (qmv W d) / inject_Z (Z.of_nat (length e)).
+
+(* sqrt oracle contract up to a relative tolerance (used where the argument is not a perfect square) *)
+Definition sqrt_tbl_close (tol : Q) (tbl : list (Q * Q)) : bool :=
+  forallb (fun xs => qrelclose tol (snd xs * snd xs) (fst xs) && Qle_bool 0 (snd xs)) tbl.
